@@ -4,7 +4,7 @@
    obs_equiv).  The 17k-line translator compiler/go_compiler.go is NOT modelled; it is compared
    with the VM and with Sref by running generated programs (stream c09.native). *)
 From Elk Require Import Base.GoSem Model.C06_Int Proofs.C06_Int Model.C09_Backends
-  Proofs.C09_Backends Proofs.C09_Fuel Proofs.C09_Dispatch.
+  Proofs.C09_Backends Proofs.C09_Fuel Proofs.C09_Dispatch Proofs.C09_Range.
 From Coq Require Import ZArith List String.
 Import ListNotations.
 Open Scope Z_scope.
@@ -170,3 +170,48 @@ Proof.
     destruct c; discriminate Ek.
   - vm_compute. reflexivity.
 Qed.
+
+(* Third generation: bounded Int ranges.  The integers Sref iterates for `for x in a OP b` are exactly
+   those the bounds describe - the start is included for `...` and `..<`, excluded for `<..` and
+   `<.<`; the end is included for `...` and `<..`, excluded for `..<` and `<.<` - each once, in
+   increasing order, consecutive (the i-th element is first + i). *)
+Theorem C09_range_elements_exact : forall o a b,
+  (forall z, In z (relements o a b) <->
+     (match o with RClosed | RRightOpen => a <= z | RLeftOpen | ROpen => a < z end) /\
+     (match o with RClosed | RLeftOpen => z <= b | RRightOpen | ROpen => z < b end)) /\
+  (forall i, (i < List.length (relements o a b))%nat ->
+     nth i (relements o a b) 0 = range_first o a + Z.of_nat i).
+Proof. exact relements_exact. Qed.
+Print Assumptions C09_range_elements_exact.
+
+(* Sref's for-in over an expression that evaluates to a range runs the body once for every element
+   of relements, in that order, binding the loop variable to it, threading environment and output;
+   a `return` in the body ends the loop (iter_list) *)
+Theorem C09_forin_range_elements : forall n p env out x e body rest o a b out1,
+  eval n p env out e = ROk (VRange o a b) out1 ->
+  exec (S n) p env out (SForIn x e body :: rest) =
+  rbind (iter_list (fun v1 env1 o1 => exec n p (set_nth x v1 env1) o1 body)
+           (map VInt (relements o a b)) env out1)
+    (fun fl out2 => match fl with
+                    | FReturn r => ROk (FReturn r) out2
+                    | FNormal env' => exec n p env' out2 rest
+                    end).
+Proof. exact forin_range_elements. Qed.
+Print Assumptions C09_forin_range_elements.
+
+(* var l0 = 3; var l1: LeftOpenRange[Int] = 0<..2
+   for x in 1...3 / 1..<3 / 1<..3 / 1<.<3 / 5...1 / 2<..2 / -2<..(l0 - 3) / l1: println(x.inspect) *)
+Definition c09_demo3 : prog :=
+  {| p_meths := [];
+     p_locals := [ EInt 3; ERange RLeftOpen (EInt 0) (EInt 2); EInt 0 ];
+     p_main := map (fun e => SForIn 2 e [ SPrint (EInspect (EVar 2)) ])
+                 [ ERange RClosed (EInt 1) (EInt 3); ERange RRightOpen (EInt 1) (EInt 3);
+                   ERange RLeftOpen (EInt 1) (EInt 3); ERange ROpen (EInt 1) (EInt 3);
+                   ERange RClosed (EInt 5) (EInt 1); ERange RLeftOpen (EInt 2) (EInt 2);
+                   ERange RLeftOpen (EInt (-2)) (EBin OpSub (EVar 0) (EInt 3)); EVar 1 ];
+     p_classes := [] |}.
+Example C09_range_nonvacuous :
+  Sref 50 c09_demo3 =
+    SDone {| o_out := ["1"; "2"; "3"; "1"; "2"; "2"; "3"; "2"; "-1"; "0"; "1"; "2"]%string;
+             o_err := None; o_status := 0 |}.
+Proof. vm_compute. reflexivity. Qed.
